@@ -143,6 +143,17 @@ func c08Batch(r *rig.SignerRig, kind string, n int, real bool, viaHandler bool) 
 			}
 		}
 	}
+	// Some accounts of a batch cannot sign when their turn comes (their key has been locked away since the request was
+	// admitted): such an entry carries no success and no signature, and the entries around it their own.
+	cannotSign := make([]bool, n)
+	if !real && n >= 3 {
+		for i := range accts {
+			if i%7 == 3 {
+				cannotSign[i] = true
+				accts[i].OnSign = func(*rig.Acct, []byte) error { return rig.ErrInjected }
+			}
+		}
+	}
 	var ress []core.Result
 	var sigs [][]byte
 	singleAtt := make([]*rules.SignBeaconAttestationData, n)
@@ -232,6 +243,12 @@ func c08Batch(r *rig.SignerRig, kind string, n int, real bool, viaHandler bool) 
 	// must get the same verdict (signed / not signed). Symbolic-key batches only (cheap).
 	if !real {
 		for i := range items {
+			if cannotSign[i] {
+				if items[i].res == core.ResultSucceeded {
+					return items, fmt.Sprintf("%s n=%d: entry %d is reported as succeeded although its account could not sign (signature of %d bytes)", kind, n, i, len(items[i].sig)), nil
+				}
+				continue
+			}
 			alone := r.AddSymAccount("Wallet 1", "", "pass", true)
 			if prior[i] {
 				farAhead(alone)
